@@ -5,6 +5,9 @@ import CanvasProofs.Lemmas.C16Tiles
 import CanvasProofs.Lemmas.C16ReorderFix
 import CanvasProofs.Lemmas.C16Itemize
 import CanvasProofs.Lemmas.C16Arith
+import CanvasProofs.Lemmas.C16Stack
+import CanvasProofs.Lemmas.C16GlueSum
+import CanvasProofs.Lemmas.C16Conserve
 /-!
 # C16 — text layout places every character once, inside the box, on ordered lines
 
@@ -107,31 +110,140 @@ theorem indexer_spec (ix : List Int) (loc : Int) :
     indexOf ix loc = (ix.takeWhile (fun s => decide (s ≤ loc))).length - 1 :=
   indexOf_spec ix loc
 
-/-! ## (e) horizontal alignment, (f) line stacking -/
+/-! ## (e) horizontal placement: `alignLine` (tied to ToText by the `AL` lines) -/
 variable {K : Type} [Field K] [LinearOrder K] [IsStrictOrderedRing K]
 
-theorem align_left (width tw indent : K) (first : Bool) :
-    lineX0 HAlign.left width tw indent first = ind indent first := lineX0_left ..
+/-- left-aligned and justified lines: the spans follow each other from the indent (first line) / from 0 -/
+theorem align_left (width indent : K) (first : Bool) (ws : List K) :
+    Follows (ind indent first) (alignLine HAlign.left width indent first ws) ws (ind indent first + ws.sum) :=
+  alignLine_left ..
 
-theorem align_justify_start (width tw indent : K) (first : Bool) :
-    lineX0 HAlign.justify width tw indent first = ind indent first := lineX0_justify ..
+theorem align_justify_start (width indent : K) (first : Bool) (ws : List K) :
+    Follows (ind indent first) (alignLine HAlign.justify width indent first ws) ws (ind indent first + ws.sum) :=
+  alignLine_justify ..
 
-/-- right-aligned lines end at the width, for every shown width -/
-theorem align_right (width tw indent : K) (first : Bool) :
-    lineX0 HAlign.right width tw indent first + tw = width := lineX0_right ..
+/-- right-aligned lines: the spans follow each other and end at the box width, for every list of widths -/
+theorem align_right (width indent : K) (first : Bool) (ws : List K) :
+    Follows (width - ws.sum) (alignLine HAlign.right width indent first ws) ws width :=
+  alignLine_right ..
 
 /-- centred lines are centred between the indent (first line) and the width -/
-theorem align_center (width tw indent : K) (first : Bool) :
-    (lineX0 HAlign.center width tw indent first + (lineX0 HAlign.center width tw indent first + tw)) / 2
-      = (ind indent first + width) / 2 := lineX0_center ..
+theorem align_center (width indent : K) (first : Bool) (ws : List K) :
+    ∃ a b, Follows a (alignLine HAlign.center width indent first ws) ws b ∧ b - a = ws.sum ∧
+      (a + b) / 2 = (ind indent first + width) / 2 :=
+  alignLine_center ..
+
+/-! ### glue adjustment: `adjustLine` (tied by the `GA` lines; exact arithmetic, rounding to font units outside) -/
+
+/-- a stretched line is its natural width plus ratio · (sum of the glue stretch), whatever the items are,
+provided the glyphs of every glue item add up to its positive width and those of penalties to 0 -/
+theorem glue_stretch_sum (ratio : K) (hr : 0 < ratio) (items : List (GItem K)) (gs : List K) (hf : Fits items gs) :
+    (adjustLine noInf idealInc (fun r => decide (r = 0)) ratio items gs).sum
+      = (gs.take (totSize items)).sum + ratio * glueY items :=
+  adjustLine_sum_stretch ratio hr items gs hf
+
+theorem glue_shrink_sum (ratio : K) (hr : ratio < 0) (items : List (GItem K)) (gs : List K) (hf : Fits items gs) :
+    (adjustLine noInf idealInc (fun r => decide (r = 0)) ratio items gs).sum
+      = (gs.take (totSize items)).sum + ratio * glueZ items :=
+  adjustLine_sum_shrink ratio hr items gs hf
+
+/-- sum of the span widths + distributed glue = box width -/
+theorem justified_line_ends_at_width (width : K) (items : List (GItem K)) (gs : List K) (hf : Fits items gs)
+    (hy : 0 < glueY items) (hshort : (gs.take (totSize items)).sum < width) :
+    (adjustLine noInf idealInc (fun r => decide (r = 0)) ((width - (gs.take (totSize items)).sum) / glueY items) items gs).sum = width :=
+  justified_line_width width items gs hf hy hshort
+
+example : Fits (K := Rat) [⟨.box, 2, 7, 0, 0⟩, ⟨.glue, 1, 3, 2, 1⟩, ⟨.pen, 1, 0, 0, 0⟩, ⟨.box, 1, 5, 0, 0⟩] [4, 3, 3, 0, 5] ∧
+    0 < glueY (K := Rat) [⟨.box, 2, 7, 0, 0⟩, ⟨.glue, 1, 3, 2, 1⟩, ⟨.pen, 1, 0, 0, 0⟩, ⟨.box, 1, 5, 0, 0⟩] := by
+  simp [Fits, glueY]
 
 theorem align_justified_width (natural stretch width : K) (hs : stretch ≠ 0) :
     natural + (width - natural) / stretch * stretch = width := justified_width natural stretch width hs
 
-theorem lines_monotone (y : K) (hs : List (LH K)) (h : ∀ l ∈ hs, 0 ≤ l.asc ∧ 0 ≤ l.bot) :
-    (stack y hs).Pairwise (· ≤ ·) := stack_sorted hs y h
+/-! ## (f) line stacking: `stackFit` / `stackLines` (tied by the `ST` lines), Text.Bounds (`BD` lines) -/
 
-theorem lines_gap (y : K) (h1 h2 : LH K) (r : List (LH K)) :
-    ∃ t, stack y (h1 :: h2 :: r) = (y + h1.asc) :: (y + h1.asc + (h1.bot + h2.asc)) :: t := stack_gap y h1 h2 r
+/-- lines are stacked monotonically, for every list of lines, box height and start -/
+theorem lines_monotone (ls height : K) (h0 : 0 ≤ ls) (lines : List (LM K)) (hn : ∀ l ∈ lines, 0 ≤ l.asc ∧ 0 ≤ l.bot)
+    (first : Bool) (y : K) : (stackFit ls height first y lines).1.Pairwise (· ≤ ·) :=
+  fit_sorted ls height h0 lines hn first y
+
+/-- consecutive baselines are exactly bottom·spacing of the upper + ascent·spacing of the lower line apart -/
+theorem lines_gap (ls height : K) (lines : List (LM K)) (first : Bool) (y : K) :
+    Gapped ls (stackFit ls height first y lines).1 lines :=
+  fit_gapped ls height lines first y
+
+/-- with a spacing ≥ 1 no two lines overlap vertically (first line against every later one; apply to suffixes) -/
+theorem lines_disjoint (ls : K) (h1 : 1 ≤ ls) (ys : List K) (lines : List (LM K))
+    (hn : ∀ l ∈ lines, 0 ≤ l.asc ∧ 0 ≤ l.desc ∧ l.desc ≤ l.bot) (hlen : ys.length ≤ lines.length) (hg : Gapped ls ys lines)
+    (y1 : K) (l1 : LM K) (hh : (ys.zip lines).head? = some (y1, l1)) :
+    ∀ p ∈ (ys.zip lines).tail, y1 ≤ p.1 - p.2.asc ∧ y1 + l1.desc ≤ p.1 :=
+  gapped_disjoint h1 ys lines hn hlen hg y1 l1 hh
+
+/-- the lines kept are a prefix of the lines asked for; all of them without a box height -/
+theorem lines_kept_prefix (ls height : K) (lines : List (LM K)) (first : Bool) (y : K) :
+    (stackFit ls height first y lines).1.length ≤ lines.length := fit_length ls height lines first y
+
+theorem lines_all_kept_unbounded (ls : K) (lines : List (LM K)) (first : Bool) (y : K) :
+    (stackFit ls 0 first y lines).1.length = lines.length := fit_unbounded ls lines first y
+
+/-- every line kept lies inside the box height -/
+theorem lines_inside_box (ls height : K) (hh : height ≠ 0) (lines : List (LM K)) (first : Bool) (y : K) (j : Nat) (v : K) (l : LM K)
+    (hv : (stackFit ls height first y lines).1[j]? = some v) (hl : lines[j]? = some l) : v + l.desc ≤ height :=
+  fit_in_box ls height hh lines first y j v l hv hl
+
+/-- vertical alignment Bottom: the last line's descent touches the bottom of the box -/
+theorem valign_bottom_touches (cast : Nat → K) (ls height : K) (lines : List (LM K)) (v : K) (l : LM K)
+    (hv : (stackFit ls height true 0 lines).1.getLast? = some v)
+    (hl : (lines.take (stackFit ls height true 0 lines).1.length).getLast? = some l) (he : l.empty = false) :
+    ∃ w, (stackLines cast ls height .bottom lines).ys.getLast? = some w ∧ w + l.desc = height :=
+  valign_bottom cast ls height lines v l hv hl he
+
+/-- vertical alignment Center: equal margins above the first and below the last line -/
+theorem valign_center_margins (cast : Nat → K) (ls height : K) (lines : List (LM K)) (v : K) (l l0 : LM K)
+    (hv : (stackFit ls height true 0 lines).1.getLast? = some v)
+    (hl : (lines.take (stackFit ls height true 0 lines).1.length).getLast? = some l) (he : l.empty = false)
+    (h0 : lines.head? = some l0) :
+    ∃ f w, (stackLines cast ls height .center lines).ys.head? = some f ∧
+      (stackLines cast ls height .center lines).ys.getLast? = some w ∧ f - l0.asc = height - (w + l.desc) :=
+  valign_center cast ls height lines v l l0 hv hl he h0
+
+/-- vertical alignment Justify: first line stays, last line touches the bottom (two lines or more) -/
+theorem valign_justify_fills (ls height : K) (lines : List (LM K)) (v : K) (l : LM K)
+    (hv : (stackFit ls height true 0 lines).1.getLast? = some v)
+    (hl : (lines.take (stackFit ls height true 0 lines).1.length).getLast? = some l) (he : l.empty = false)
+    (h2 : 2 ≤ (stackFit ls height true 0 lines).1.length) :
+    (stackLines (fun n => (n : K)) ls height .justify lines).ys.head? = (stackFit ls height true 0 lines).1.head? ∧
+    ∃ w, (stackLines (fun n => (n : K)) ls height .justify lines).ys.getLast? = some w ∧ w + l.desc = height :=
+  valign_justify ls height lines v l hv hl he h2
+
+example : (stackFit (α := Int) 1 0 true 0 [⟨3, 1, 2, false⟩, ⟨3, 1, 2, false⟩]).1 = [3, 8] := by decide
+
+/-- the hypotheses of the vertical alignment theorems hold for two ordinary lines in a box of height 20 -/
+example : (stackFit (α := ℚ) 1 20 true 0 [⟨3, 1, 2, false⟩, ⟨3, 1, 2, false⟩]).1.getLast? = some 8 ∧
+    ([(⟨3, 1, 2, false⟩ : LM ℚ), ⟨3, 1, 2, false⟩].take (stackFit (α := ℚ) 1 20 true 0 [⟨3, 1, 2, false⟩, ⟨3, 1, 2, false⟩]).1.length).getLast?.map (·.empty) = some false ∧
+    2 ≤ (stackFit (α := ℚ) 1 20 true 0 [⟨3, 1, 2, false⟩, ⟨3, 1, 2, false⟩]).1.length := by
+  norm_num [stackFit]
+
+/-- Text.Bounds contains the rectangle of every span -/
+theorem bounds_enclose_spans (rs : List (R4 K)) : ∀ r ∈ rs,
+    (boundsOf min max rs).x0 ≤ r.x0 ∧ (boundsOf min max rs).y0 ≤ r.y0 ∧ r.x1 ≤ (boundsOf min max rs).x1 ∧ r.y1 ≤ (boundsOf min max rs).y1 :=
+  bounds_encloses rs
+
+/-! ## character conservation: soundness of the verdict `conserve` the check applies to every laid-out text -/
+
+/-- verdict ok ⇒ every rune that is not white space, a line separator or an optional break lies in
+exactly one span -/
+theorem conserve_ok_exactly_once (cls : List RC) (lines : List (List (Nat × Nat))) (h : conserve cls lines = .ok) :
+    ∀ i c, cls[i]? = some c → c.droppable = false → cover lines.flatten i = 1 :=
+  conserve_sound cls lines h
+
+/-- verdict ok ⇒ no rune at all lies in two spans -/
+theorem conserve_ok_at_most_once (cls : List RC) (lines : List (List (Nat × Nat))) (h : conserve cls lines = .ok) :
+    ∀ i, cover lines.flatten i ≤ 1 :=
+  conserve_atmost cls lines h
+
+example : conserve [.ch, .ch, .sp, .ch, .lf, .ch] [[(0, 2)], [(3, 4)], [(5, 6)]] = .ok := by decide
+example : conserve [.ch, .ch, .sp, .ch] [[(0, 2)], [(1, 4)]] ≠ .ok := by decide
+example : conserve [.ch, .ch, .sp, .ch] [[(0, 1)], [(3, 4)]] ≠ .ok := by decide
 
 end C16
